@@ -30,7 +30,9 @@ DYN_FORMS = ['{field.proj}', '{ field.proj }', '{extract(field.proj, "(P\\\\w+)"
              '{extract(field.proj, "(P\\\\S+)")}', '{regex_replace(field.proj, "\\\\W", "")}', '{split(field.proj + "Zq", "Z", 0)}',
              # through a let: binding of the SAME rule (the tag belongs to its rule's bindings, not to the last rule's)
              # (not wrapped in a function: a failed binding is None, and trim(None) is the text "None" in this language)
-             '{tagsrc}', '{ tagsrc }']
+             '{tagsrc}', '{ tagsrc }',
+             # braces INSIDE the expression (a counted repetition): the tag is still one {expression}
+             '{extract(field.proj, "(P\\\\w{2})")}', '{extract(field.proj, "([A-Za-z]{1,2}\\\\d{1})")}']
 DYN_LET = 'let: tagsrc = field.proj'
 CATS = {'C1': 'Food', 'C2': 'Bills & Utilities'}
 SUBS = {'S1': 'Sub One', 'S2': 'Sub Two'}
